@@ -238,8 +238,10 @@ def scalar_tokens(tier):
            "1e10", "2147483649", "4294967297", "9.223372036854776e18", "1e19", "1.8446744073709552e19", "1e100",
            "-1e100", "1e-320", "1e400", "3.4028235e38", "3.5e38", "0.30000000000000004", "123456789012345678",
            "1.7976931348623157e308", "5e-324", ".5", "5.", "+1.5",
-           # around maxBigIntBits (2^65536 ~ 2.0e19728): the last accepted and the first refused for *big.Int
-           "1e19728", "2e19728", "3e19728", "1e19729", "-1e19729", "1e1000000"]
+           # maxBigIntBits (2^65536 ~ 2.0e19728): refused for *big.Int from 3e19728 on (MantExp 65537); the accepted side
+           # is exercised at 1e1000 only - the extracted model's arithmetic on inductive Z needs minutes for a 65536-bit
+           # integer - and the constant itself is read from the source into the action table (AReadBigFloatInt 65536)
+           "1e1000", "3e19728", "1e19729", "-1e19729", "1e1000000"]
     toks += [("d", S(x)) for x in dbl]
     toks += [("u", S(x)) for x in ["a", "5", "0", "1", "t", "T", "-", "é", "中", " "]]
     strs = ["", "a", "5", "12", "-7", "+7", "300", "1.5", "true", "false", "TRUE", "abc", "é中😀", "18446744073709551616",
@@ -255,13 +257,38 @@ def scalar_tokens(tier):
     toks += [("D", 2020, 1, 2, True), ("D", 2020, 2, 29, False), ("DT", 2020, 1, 2, 3, 4, 5, [], True),
              ("DT", 1, 1, 1, 0, 0, 0, [], True), ("DT", 9999, 12, 31, 23, 59, 59, [999, 999, 999], False),
              ("DT", 1969, 12, 31, 23, 59, 59, [123], False), ("DT", 2020, 6, 15, 12, 0, 0, [123, 456], True),
-             ("T", 3, 4, 5, [], True), ("T", 0, 0, 0, [], False), ("T", 23, 59, 59, [1, 2, 3], False)]
+             ("T", 3, 4, 5, [], True), ("T", 0, 0, 0, [], False), ("T", 23, 59, 59, [1, 2, 3], False),
+             # every fraction length with either terminator, in the time-only and in the date+time form
+             ("T", 12, 13, 14, [123], True), ("T", 12, 13, 14, [123, 456], True), ("T", 12, 13, 14, [123, 456, 789], True),
+             ("T", 12, 13, 14, [123], False), ("T", 12, 13, 14, [123, 456], False),
+             ("DT", 1970, 1, 1, 12, 13, 14, [123], True), ("DT", 2021, 3, 4, 12, 13, 14, [123, 456, 789], True),
+             ("DT", 2021, 3, 4, 12, 13, 14, [5], False)]
     toks += [("a", []), ("a", [("dig", 1), ("i", 22)]), ("a", [("d", b"1.5"), ("d", b"-2")]), ("a", [("dig", 1)]),
              ("a", [("dig", 1), ("dig", 2), ("dig", 3)]), ("a", [("i", 300)]), ("a", [("s", b"hi"), ("n",)]),
              ("m", []), ("m", [("u", b"a"), ("dig", 1)]), ("m", [("dig", 1), ("s", b"one"), ("dig", 2), ("s", b"two")]),
              ("E", ("s", b"boom"))]
     return toks
 
+
+def _ch(cp):
+    return chr(cp).encode("utf-8")
+
+
+# strings over every UTF-8 lead-byte class: the 2-byte leads C2..DF (Latin-1 .. N'Ko: Cyrillic D0/D1, Hebrew D7, Arabic D8/D9),
+# the 3-byte leads E0..EF and the 4-byte leads F0..F4, each at the first and the last code point of its range
+UTF8_STRINGS = [
+    "Привет".encode(), "שלום".encode(), "مرحبا".encode(), "Ελλάδα".encode(), "Հայ".encode(), "ߊߋߌ".encode(),
+    _ch(0x80) + _ch(0x3FF) + _ch(0x400) + _ch(0x7FF), _ch(0x800) + _ch(0xFFF) + _ch(0x1000) + _ch(0xD7FF) + _ch(0xE000) + _ch(0xFFFF),
+    _ch(0x10000) + _ch(0x3FFFF) + _ch(0x40000) + _ch(0xFFFFF) + _ch(0x100000) + _ch(0x10FFFF),
+    b"".join(bytes([lead, 0xA5]) for lead in range(0xC2, 0xE0)),                    # one character per 2-byte lead
+    b"".join(bytes([lead, 0xA5, 0xA5]) for lead in range(0xE1, 0xF0) if lead != 0xED) + b"\xe0\xa5\xa5\xed\x95\xa5",   # per 3-byte lead
+    b"".join(bytes([lead, 0x95 if lead > 0xF0 else 0xA5, 0xA5, 0xA5]) for lead in range(0xF0, 0xF4)) + b"\xf4\x8f\xa5\xa5",
+    "aПb中c😀d".encode(), "д".encode() * 40,
+]
+UTF8_CHARS = [_ch(0x80), _ch(0x3FF), _ch(0x400), "П".encode(), "ש".encode(), "ع".encode(), _ch(0x7FF), _ch(0x800), _ch(0xFFFF)]
+UTF8_LEADS = ([bytes([lead, 0xA5]) for lead in range(0xC2, 0xE0)] +
+              [bytes([lead, 0xA5 if lead != 0xED else 0x95, 0xA5]) for lead in range(0xE0, 0xF0)] +
+              [bytes([lead, 0xA5 if lead == 0xF0 else (0x8F if lead == 0xF4 else 0x95), 0xA5, 0xA5]) for lead in range(0xF0, 0xF5)])
 
 SCALAR_TYPES = ([T("bool")] + [T(k) for k in INTS] + [T("float32"), T("float64"), T("complex64"), T("complex128"),
                 T("string"), Slice(T("uint8")), T("bigint"), T("bigfloat"), T("bigrat"), T("time"), T("uuid"), IFACE])
@@ -322,6 +349,12 @@ LIST_TOKENS = [
     # longer than the 16 elements a container reserves on the word of the wire: grown while decoding
     lst(*[d(i % 10) for i in range(16)]), lst(*[("i", i) for i in range(17)]), lst(*[("i", 100 + i) for i in range(40)]),
     lst(*[s("e%d" % i) for i in range(33)]), lst(*[lst(d(i % 10)) for i in range(20)]),
+    # elements that own storage, each no longer than the one before (a reused slice or pointee would show)
+    lst(lst(d(1), d(2), d(3)), lst(d(4), d(5), d(6)), lst(d(7), d(8))), lst(lst(d(1), d(2)), lst(d(3)), lst()),
+    lst(mp(u("a"), d(1)), mp(u("a"), d(2), u("b"), d(3)), mp()), lst(lst(s("ab"), s("cd")), lst(s("ef"))),
+    cls("Inner", ["x", "y"], lst(obj(0, d(1), s("a")), obj(0, d(2), s("b")), obj(0, d(3), s("c")))),
+    lst(mp(s("x"), d(1), s("y"), s("one")), mp(s("x"), d(2), s("y"), s("two"))),
+    lst(("b", b"abc"), ("b", b"de"), ("b", b"")), lst(d(1), ("n",), d(3)),
 ]
 LIST_TYPES = [Slice(INT), Slice(T("int8")), Slice(T("uint8")), Slice(STR), Slice(IFACE), Slice(F64), Slice(T("bool")),
               Array(3, INT), Array(2, STR), Array(4, T("uint8")), Array(0, INT), Array(2, IFACE),
@@ -329,7 +362,13 @@ LIST_TYPES = [Slice(INT), Slice(T("int8")), Slice(T("uint8")), Slice(STR), Slice
               Map(T("complex128"), INT), LIST, IFACE, Slice(Ptr(INT)), Slice(Slice(INT)), Slice(Slice(Slice(INT))),
               Slice(Array(2, INT)), Ptr(Slice(INT)), Ptr(Array(2, INT)), Slice(BYTES), Slice(T("time")), Slice(T("uuid")),
               Slice(Map(STR, INT)), T("complex64"), T("complex128"), Ptr(T("complex128")), Slice(T("complex128")),
-              Reg("Inner"), Reg("MyInts"), Slice(T("bigint")), Slice(Ptr(T("bigint")))]
+              Reg("Inner"), Reg("MyInts"), Slice(T("bigint")), Slice(Ptr(T("bigint"))),
+              # the list form into maps (index -> element) whose values own storage: fresh storage per entry
+              Map(INT, Slice(INT)), Map(STR, Slice(INT)), Map(F64, Slice(STR)), Map(INT, Ptr(INT)), Map(STR, Ptr(Slice(INT))),
+              Map(INT, Array(2, INT)), Map(INT, Map(STR, INT)), Map(INT, Ptr(Map(STR, INT))), Map(T("uint8"), BYTES),
+              Map(INT, Reg("Inner")), Map(STR, Ptr(Reg("Inner"))), Map(IFACE, Slice(INT)), Map(INT, Slice(Slice(INT))),
+              Map(INT, Ptr(T("bigint"))), Map(INT, IFACE), Map(T("complex64"), Slice(INT)), Slice(Ptr(Reg("Inner"))),
+              Slice(Reg("Inner"))]
 
 MAP_TOKENS = [
     mp(), mp(u("a"), d(1)), mp(u("a"), d(1), u("b"), d(2)), mp(d(1), s("one"), d(2), s("two")), mp(s("x"), d(5), s("y"), s("why")),
